@@ -240,6 +240,69 @@ def F4f():
     h, r, exc = run_scenario(app, sc, timeout=4)
     return ("KeyError" in _names(exc)), f"exception in the connection's task group: {_names(exc)}; app progress {state['n']}"
 
+def F18b():
+    """keep_alive_max_requests = 1: the second request on the connection ("one more on HTTP/2") is
+    taken on -- its application runs -- but GOAWAY is sent first, which closes h2's state machine:
+    its response can never be written (ProtocolError, swallowed); the client gets GOAWAY only"""
+    cfg = quiet_config()
+    cfg.keep_alive_max_requests = 1
+    ran = []
+
+    async def app(scope, receive, send):
+        ran.append(scope["path"])
+        await send({"type": "http.response.start", "status": 200, "headers": []})
+        await send({"type": "http.response.body", "body": b"hello"})
+
+    async def sc(h):
+        per_stream = {}
+        for sid in (1, 3):
+            h.client.send_headers(sid, GET, end_stream=True)
+            await h.flush()
+            await h.flush()
+        for e in h.events:
+            sid = getattr(e, "stream_id", None)
+            if sid:
+                per_stream.setdefault(sid, []).append(type(e).__name__)
+        return per_stream
+    h, r, exc = run_scenario(app, sc, config=cfg)
+    r = r or {}
+    return (exc is None and len(ran) == 2 and "ResponseReceived" in r.get(1, []) and "ResponseReceived" not in r.get(3, [])), f"applications run: {len(ran)}; client events per stream: {r}"
+
+
+def F15b():
+    """shutdown has begun while a request is in flight: when its stream finishes, GOAWAY is sent
+    (close_connection) while the send task is still between send_data and end_stream (a transport
+    write suspends): END_STREAM is refused by h2 afterwards, the response arrives truncated"""
+    import asyncio as _a
+    from hypercorn.events import RawData
+
+    async def app(scope, receive, send):
+        await send({"type": "http.response.start", "status": 200, "headers": []})
+        await send({"type": "http.response.body", "body": b"x" * 2000})
+
+    class Slow(Harness):
+        async def send(self, event):
+            await _a.sleep(0)  # a real transport write suspends
+            await Harness.send(self, event)
+
+    h = Slow(app)
+
+    async def script(h):
+        h.client.send_headers(1, GET, end_stream=True)
+        t = _a.ensure_future(h.proto.handle(RawData(h.client.data_to_send())))
+        await _a.sleep(0)
+        await h.ctx.terminated.set()  # shutdown begins while the request is being served
+        await t
+        for _ in range(200):
+            await _a.sleep(0)
+        return [type(e).__name__ for e in h.events]
+    try:
+        r, exc = _a.run(_a.wait_for(h.run(script), 5)), None
+    except BaseException as e:  # noqa
+        r, exc = None, e
+    r = r or []
+    return (exc is None and "DataReceived" in r and "ConnectionTerminated" in r and "StreamEnded" not in r), f"client saw {r}"
+
 
 SCENARIOS = {k: v for k, v in globals().items() if k.startswith("F") and callable(v)}
 
